@@ -161,7 +161,11 @@ impl SecondaryStorage {
                     )
                     && !dvs_to_open.contains_key(&(table_id, rowset_id, dv_id))
                 {
+                    #[cfg(risinglight_verif)]
+                    crate::verif::crash_point("boot.dvvacuum.before", entry.path(), &[]);
                     fs::remove_file(entry.path()).await?;
+                    #[cfg(risinglight_verif)]
+                    crate::verif::crash_point("boot.dvvacuum.after", entry.path(), &[]);
                 }
             }
         }
